@@ -12,6 +12,7 @@ mod props;
 mod refchess;
 mod report;
 mod roots;
+mod searchref;
 
 use props::posprops::{self, Which};
 
@@ -57,6 +58,11 @@ fn main() {
             posprops::run(Which::C17, &tier, seed, &out);
             0
         }
+        "c05" => {
+            props::c05::run(&tier, seed, &out);
+            0
+        }
+        "c05-one" => props::c05::replay_one(&arg(&args, "--fen").unwrap(), arg(&args, "--depth").unwrap().parse().unwrap(), arg(&args, "--mode").as_deref() == Some("fixed")),
         "c10" => {
             props::c10::run(&tier, seed, &out);
             0
